@@ -67,6 +67,27 @@ func (self Node) len() (int, error) {
 	}
 }
 
+// need tells whether the node holds at least n bytes. A node cut out of inconsistent data
+// (e.g. element type of the descriptor vs. element size on the wire) can be shorter than its type.
+func (self Node) need(n int) error {
+	if self.l < n {
+		return errNode(meta.ErrRead, "node is shorter than its type", nil)
+	}
+	return nil
+}
+
+// needString checks the length prefix of a STRING node against the bytes the node holds.
+func (self Node) needString() error {
+	if err := self.need(4); err != nil {
+		return err
+	}
+	size := thrift.BinaryEncoding{}.DecodeInt32(rt.BytesFrom(self.v, 4, 4))
+	if size < 0 || int(size) > self.l-4 {
+		return errNode(meta.ErrRead, "string length exceeds node", nil)
+	}
+	return nil
+}
+
 func (self Node) raw() []byte {
 	return rt.BytesFrom(self.v, self.l, self.l)
 }
@@ -90,6 +111,9 @@ func (self Node) Byte() (byte, error) {
 func (self Node) byte() (byte, error) {
 	switch self.t {
 	case thrift.BYTE:
+		if err := self.need(1); err != nil {
+			return 0, err
+		}
 		return byte(thrift.BinaryEncoding{}.DecodeByte(rt.BytesFrom(self.v, int(self.l), int(self.l)))), nil
 	default:
 		return 0, errNode(meta.ErrUnsupportedType, "", nil)
@@ -107,6 +131,9 @@ func (self Node) Bool() (bool, error) {
 func (self Node) bool() (bool, error) {
 	switch self.t {
 	case thrift.BOOL:
+		if err := self.need(1); err != nil {
+			return false, err
+		}
 		return thrift.BinaryEncoding{}.DecodeBool(rt.BytesFrom(self.v, int(self.l), int(self.l))), nil
 	default:
 		return false, errNode(meta.ErrUnsupportedType, "", nil)
@@ -123,6 +150,11 @@ func (self Node) Int() (int, error) {
 
 func (self Node) int() (int, error) {
 	buf := rt.BytesFrom(self.v, int(self.l), int(self.l))
+	if n := thrift.TypeSize(self.t); n > 0 {
+		if err := self.need(n); err != nil {
+			return 0, err
+		}
+	}
 	switch self.t {
 	case thrift.I08:
 		return int(thrift.BinaryEncoding{}.DecodeByte(buf)), nil
@@ -148,6 +180,9 @@ func (self Node) Float64() (float64, error) {
 func (self Node) float64() (float64, error) {
 	switch self.t {
 	case thrift.DOUBLE:
+		if err := self.need(8); err != nil {
+			return 0, err
+		}
 		return thrift.BinaryEncoding{}.DecodeDouble(rt.BytesFrom(self.v, int(self.l), int(self.l))), nil
 	default:
 		return 0, errNode(meta.ErrUnsupportedType, "", nil)
@@ -165,6 +200,9 @@ func (self Node) String() (string, error) {
 func (self Node) string() (string, error) {
 	switch self.t {
 	case thrift.STRING:
+		if err := self.needString(); err != nil {
+			return "", err
+		}
 		str := thrift.BinaryEncoding{}.DecodeString(rt.BytesFrom(self.v, int(self.l), int(self.l)))
 		// if self.d.IsBinary() {
 		// 	if !utf8.Valid(rt.Str2Mem(str)) {
@@ -188,6 +226,9 @@ func (self Node) Binary() ([]byte, error) {
 func (self Node) binary() ([]byte, error) {
 	switch self.t {
 	case thrift.STRING:
+		if err := self.needString(); err != nil {
+			return nil, err
+		}
 		return thrift.BinaryEncoding{}.DecodeBytes(rt.BytesFrom(self.v, int(self.l), int(self.l))), nil
 	default:
 		return nil, errNode(meta.ErrUnsupportedType, "", nil)
